@@ -254,6 +254,21 @@ func init() {
 		tr := &Trace{Property: ps.ID, Seed: seed, Config: cfg}
 		w := NewWorld(cfg, NewStats())
 		p := determinismProfile(r.Sub("profile"), cfg)
+		if r.Sub("osc").Chance(0.35) {
+			// oscillating children: nested containers grow past the parent's inline limit and shrink back again and
+			// again with commits in between, so that slab ids are written, deleted (tombstones in the read cache),
+			// written again ... across failed and successful commits
+			owners := p.Owners
+			p = nestedProfile(r.Sub("osc-profile"), cfg)
+			p.Name = "oscillate"
+			p.Owners = owners
+			p.NestedTargetBias = 0.9
+			p.MaxDepth = 2
+			p.NestProb = 0.3
+			p.W["a.fill"], p.W["a.drain"], p.W["m.fill"], p.W["m.drain"] = 10, 10, 8, 8
+			p.W["commit"], p.W["reopen"], p.W["dropcache"] = 14, 1, 1
+			p.W["gc"] = 0
+		}
 		p.W["crash"] = 0
 		if r.Sub("temp").Chance(0.3) {
 			p.Owners = append(p.Owners, 0)
@@ -315,6 +330,8 @@ func init() {
 			}
 			agg.Inc("c14.histories-with-all-pairs")
 		}
+		// one give-up variant per history (a failed commit that is not retried at once), deterministic flavour
+		variants = append(variants, FaultVariant{E: vr.Intn(maxN), Workers: []int{1, 2}[vr.Intn(2)], GiveUp: true, Flavour: []string{"fc", "fc", "nfc"}[vr.Intn(3)]})
 		// pairs, persistent faults, identity-based faults, forced flavours
 		extra := 4
 		if tier == "thorough" {
